@@ -380,6 +380,12 @@ func (e *escaper) callArg(c ssa.CallInstruction, v ssa.Value, isPtr bool) {
 				}
 			}
 		}
+		// a zero-copy conversion (unsafe.String / unsafe.Slice on the argument) returns an alias of the buffer
+		if !isPtr && usesUnsafeAlias(callee) {
+			if call, ok := c.(*ssa.Call); ok {
+				e.slice(call)
+			}
+		}
 		return
 	}
 	if isPtr {
@@ -391,6 +397,10 @@ func (e *escaper) callArg(c ssa.CallInstruction, v ssa.Value, isPtr bool) {
 	}
 	// slice by value to a non-module callee: append-style stdlib functions and the one Write
 	if strings.HasPrefix(name, "builtin.") || e.sliceSinks[name] || appendStyle(name) {
+		return
+	}
+	// a string view of the buffer cannot be modified; standard-library functions taking a string only read it
+	if b, ok := v.Type().Underlying().(*types.Basic); ok && b.Info()&types.IsString != 0 && !e.p.InModule(callee) {
 		return
 	}
 	e.bad("bytes of the private buffer passed to %s at %s", name, e.p.Pos(c.Pos()))
@@ -496,4 +506,19 @@ func keys(m map[string]bool) string {
 	}
 	sort.Strings(ks)
 	return strings.Join(ks, ",")
+}
+
+func usesUnsafeAlias(fn *ssa.Function) bool {
+	hit := false
+	sx.Instrs(fn, func(in ssa.Instruction) {
+		if c, ok := in.(*ssa.Call); ok {
+			if b, ok := c.Call.Value.(*ssa.Builtin); ok {
+				switch b.Name() {
+				case "String", "Slice", "StringData", "SliceData":
+					hit = true
+				}
+			}
+		}
+	})
+	return hit
 }
